@@ -925,6 +925,10 @@ def Struct(*members_: Union[DataType, Type[DataType]]) -> Type[StructType]:
             if isinstance(values, dict):
                 return b"".join(typ.encode(values[typ.name]) for typ in cls.members)
             else:
+                if len(values) < len(cls.members):
+                    raise DataError(
+                        f"Not enough values to encode struct, expected {len(cls.members)} got {len(values)}"
+                    )
                 return b"".join(
                     typ.encode(val) for typ, val in zip(cls.members, values)
                 )
